@@ -184,4 +184,7 @@ def pool_map(fn: Callable, jobs: Iterable, procs: int = 16, initializer=None, in
         return [fn(j) for j in jobs]
     ctx = mp.get_context('fork')
     with ctx.Pool(min(procs, len(jobs)), initializer=initializer, initargs=initargs) as pool:
-        return pool.map(fn, jobs, chunksize=1)
+        res = pool.map(fn, jobs, chunksize=1)
+        pool.close()        # let the workers exit normally (atexit hooks, e.g. coverage measurement in tools/covaudit.sh)
+        pool.join()
+        return res
